@@ -5,6 +5,7 @@ from props import wsmodel as W
 
 ID = "C02"
 PROPERTIES_V = "theories/Properties/C02X.v"
+EXTRA_PROPERTIES_V = ["theories/Properties/C02W.v"]   # two-workspace world: cross-workspace copies, frame across workspaces
 CHUNK = 8  # histories are heavy terms (a dump of tree and file after every op): small case files, evaluated in parallel
 CASE_IMPORTS = "From GV Require Import Prelude.Base Model.WsX Model.WsXCheck."
 ALLOWED_AXIOMS: list = []
